@@ -39,7 +39,7 @@ Record grp := mkGrp { gr_coord : bid; gr_g : group }.
 Record meta := mkMeta {
   mt_streams : list (sid * strm);
   mt_groups : list (gid * grp);
-  mt_disk : list (sid * N);        (* data directory of a stream name: index of the create that made it *)
+  mt_disk : list (sid * N);        (* data directory of a stream name: index of the create whose data it holds, 0 = empty *)
   mt_activity : N
 }.
 
@@ -196,7 +196,10 @@ Section Apply.
 
   Definition add_stream (m : meta) (s : sid) (ps : list part) (idx : N) : meta :=
     mkMeta (aset s (mkStrm ps false false) (mt_streams m)) (mt_groups m)
-           (match alookup s (mt_disk m) with Some _ => mt_disk m | None => aset s idx (mt_disk m) end)
+           (match alookup s (mt_disk m) with
+            | Some 0%N | None => aset s idx (mt_disk m)     (* no directory, or an empty one: this create's data *)
+            | Some _ => mt_disk m                           (* existing data is opened, not replaced *)
+            end)
            (mt_activity m).
 
   (* Server.apply: None = the operation fails (the server panics) *)
